@@ -137,6 +137,12 @@ def svc_config(prefix, table_name="QR_FIND_SERVICE_CLASS_STATUS"):
             b = I.fresh("bool", "is_established")
             I.ghost.setdefault("established_reads", []).append(b.e)
             return Volatile(b)
+        if env.path == "store_assoc" and name == "is_established":
+            # the association with the Move Destination may be lost at any time as well: every read is fresh.  (Losing it does
+            # NOT excuse the final C-MOVE response: only the requestor's own association counts for that.)
+            b = I.fresh("bool", "store_assoc_is_established")
+            I.ghost.setdefault("store_established_reads", []).append(b.e)
+            return Volatile(b)
         return NotImplemented
     c.env_attr = env_attr
 
@@ -756,7 +762,6 @@ class GetMoveScpTask(Task):
                     raise PyRaise(ExcVal("RuntimeError", ("associate failed",)))
                 sa = Env("store_assoc")
                 sa.truth = True
-                sa.attrs["is_established"] = I.fresh("bool", "store_assoc_established")
                 return sa
             if env.path.startswith("store_assoc"):
                 I.trace.append(Ev(f"{env.path}.{method}", tuple(args)))
